@@ -117,9 +117,21 @@ func runCase(c Case) *ev.Failure {
 		}
 		knownRef = knownValues(m)
 	}
-	// strict
+	// strict (the id was defined before with the known fields only, when there are any: a rejected
+	// redefinition must not leave the older definition usable for "the data that follows")
 	{
 		col := mk(collector.DecodingModeStrict)
+		if len(known) > 0 && nUnknown > 0 {
+			var kf []gen.TField
+			for _, f := range c.Fields {
+				if !f.Unknown {
+					kf = append(kf, f)
+				}
+			}
+			if _, f := decodeOK(col, ref.TemplateMessage(ref.Header{Domain: 9}, gen.Wire(256, kf)), "strict: earlier template of known fields"); f != nil {
+				return f
+			}
+		}
 		dr := col.Decode(tm, "10.1.2.3:4739")
 		if dr.Hung || dr.Panic != "" {
 			return ev.Failf("strict: crashed or hung on the template: %s%s", dr.Panic, dr.HungWhy)
